@@ -265,6 +265,25 @@ def check(ctx: Ctx) -> list[RuleResult]:
                 r6.fail(f"Command.{name}:{pn}:guard-before-normalisation", m.loc(early[0]), f"Command.{name} tests `{pn}` in a CommandInvalid guard (`{norm(early[0].test)[:70]}`) before `{pn}` is normalised (`{norm(body[last])[:60]}`): the guard misses the other spellings the normalisation accepts, so an out-of-domain call still builds a frame")
             else:
                 r6.ok({"constructor": name, "parameter": pn, "normalised_at_statement": last})
+    # the same for the index normaliser: a function that passes a parameter to _check_idx() must not compare the *raw* parameter
+    # with index constants (0xFA and 'fa' normalise to 'FA', which a raw `in ("HW", "FA")` does not recognise)
+    n_norm_calls = 0
+    for f in repo.functions_in(f"{CMD}."):
+        if f.name == "_check_idx":
+            continue
+        fparams = {a.arg for a in f.node.args.args + f.node.args.kwonlyargs}
+        passed = {c.args[0].id for c in own_nodes(f.node) if isinstance(c, ast.Call) and norm(c.func) == "_check_idx" and c.args and isinstance(c.args[0], ast.Name) and c.args[0].id in fparams}
+        n_norm_calls += len(passed)
+        for pn in sorted(passed):
+            r6.instances += 1
+            r6.nontrivial += 1
+            raw = [c for c in own_nodes(f.node) if isinstance(c, ast.Compare) and isinstance(c.left, ast.Name) and c.left.id == pn and len(c.ops) == 1 and isinstance(c.ops[0], (ast.Eq, ast.NotEq, ast.In, ast.NotIn)) and not (isinstance(c.comparators[0], ast.Constant) and c.comparators[0].value is None)]
+            if raw:
+                r6.fail(f"{f.short}:{pn}:raw-index-compared", f.loc(raw[0]), f"{f.short} compares the raw `{pn}` (`{norm(raw[0])[:60]}`) although it normalises it with _check_idx(): an index given in another accepted spelling (an int, lower case) takes the wrong branch")
+            else:
+                r6.ok({"function": f.short, "parameter": pn, "compared_only_after": "_check_idx()"})
+    if n_norm_calls < 15:
+        raise AnalysisError(f"only {n_norm_calls} _check_idx(<parameter>) calls found in command.py (expected >= 15)")
     out.append(r6)
 
     if ctx.tier == "thorough" or True:
